@@ -76,6 +76,18 @@ def check_one(x: dict, d: dict, heads: list | None, ssbs: bool) -> list[tuple[st
     ymap = {int(k): v for k, v in y["source_map"]["map"].items()}
     fx = [o for r in x["ops"] for o in r]
     fy = [o for r in y["ops"] for o in r]
+    if not ssbs and not d.get("fallback") and x.get("_reached") is not None:
+        # a Jump op into ANOTHER routine is never left implicit by the decompiler: `jump @label_N;` is printed for it, so a
+        # reachable one must have an entry. (Inside a routine the decompiler deletes Jump ops and prints jump statements of
+        # its own where a label was already written; nothing can be demanded there.)
+        rtn_of = {o["off"]: ri for ri, r in enumerate(x["ops"]) for o in r}
+        reached = set(x["_reached"])
+        for i, o in enumerate(fx):
+            if o["name"] == "Jump" and o["params"] and i in reached and rtn_of.get(o["params"][-1], rtn_of[o["off"]]) != rtn_of[o["off"]] \
+                    and o["off"] not in m:
+                bad.append(("foreign_jump_without_entry", f"input op {o['off']} (Jump into routine {rtn_of.get(o['params'][-1])}) is reachable and printed as a jump "
+                                                           f"statement, but has no source map entry"))
+                break
     rel: dict[int, set] = {}
     if ssbs or d.get("fallback"):
         if len(fx) == len(fy):
